@@ -599,7 +599,10 @@ def _show(x: Any) -> Any:
         return {str(k): _show(v) for k, v in x.items()}
     if isinstance(x, (SymInt, SymBool)):
         return str(x.e)
-    return repr(x)[:200]
+    try:
+        return repr(x)[:200]
+    except BaseException:  # noqa: BLE001 - objects under test may have a broken repr
+        return "<%s: repr failed>" % type(x).__name__
 
 
 def explore(
